@@ -14,7 +14,7 @@ typedef struct S_class_ikos__interval I;
 #endif
 #define ZB (((i128)1) << ZBITS)     /* finite bounds of INPUTS lie strictly inside (-ZB, ZB) */
 #ifdef __cplusplus
-static inline i128 bval(B b){ return (i128)(((u128)b.f1.f0.a[0].f1 << 64) | (u128)b.f1.f0.a[0].f0); }
+static inline i128 bval(B b){ return (i128)(((u128)b.f1.f0.a.f1 << 64) | (u128)b.f1.f0.a.f0); }
 static inline i128 ZM_mul(i128 a, i128 b){ return a * b; }
 static inline i128 ZM_div(i128 a, i128 b){ return a / b; }
 static inline i128 ZM_rem(i128 a, i128 b){ return a % b; }
@@ -50,7 +50,7 @@ static inline bool i_eq(I a, I b){ return i_bot(a) ? i_bot(b) : (!i_bot(b) && b_
 static inline bool i_leq(I a, I b){ return i_bot(a) || (!i_bot(b) && b_le(b.f0, a.f0) && b_le(a.f1, b.f1)); }
 static inline bool i_is(I i, B lb, B ub){ return !i_bot(i) && b_eq(i.f0, lb) && b_eq(i.f1, ub); }
 /* ---- spec functions on extended integers (results as B values) */
-static inline B mkfin(i128 v){ B b; b.f0 = 0; b.f1.f0.a[0].f0 = (uint64_t)(u128)v; b.f1.f0.a[0].f1 = (uint64_t)((u128)v >> 64); return b; }
+static inline B mkfin(i128 v){ B b; b.f0 = 0; b.f1.f0.a.f0 = (uint64_t)(u128)v; b.f1.f0.a.f1 = (uint64_t)((u128)v >> 64); return b; }
 static inline B mkinf(int sign){ B b = mkfin(sign); b.f0 = 1; return b; }
 static inline B x_neg(B a){ return b_inf(a) ? mkinf(bval(a) > 0 ? -1 : 1) : mkfin(-bval(a)); }
 /* a + b, never applied to opposite infinities */
